@@ -16,7 +16,14 @@ from vt.core import SubCheck, Violation, exc_key
 HANG_IS_VIOLATION = False      # cost depends on generated grid / file sizes: a CPU budget hit is inconclusive here
 ASSUMPTIONS = [
     "network prepared as NetworkReader / test_mapping.py do: edge geometry source->target with abs_curv, "
-    "weight = 2D length, z = 0, node coordinates = first/last vertex, SpatialIndex attached, prepare() called",
+    "weight = Track.length(), node coordinates = position of the first/last vertex, SpatialIndex attached, prepare() called",
+    "heights: the network vertices carry z = 0 everywhere / one constant / heights varying along the edges (case fields nz = "
+    "one height per node, shared by all edges ending there, and midz per edge); fixes carry z = 0 or not.  The matching is "
+    "planimetric (projection, radius, abs_curv are 2D), so the oracle stays 2D: point on the 2D geometry, 2D distance to the "
+    "fix, distances to the end nodes = 2D abscissa and its complement to the 2D edge length",
+    "several matching calls on the SAME prepared network (case field calls = [{t: track numbers, radius, noise, how: single | "
+    "collection, fresh}]): each call has its own search_radius / gps_noise and is judged with its own radius right after it "
+    "returns; a track is matched again as the same Track object or as a fresh copy, and tracks share exact fix positions",
     "every edge has positive length; index extent non-degenerate and resolution <= extent in each dimension "
     "(otherwise the index constructor divides by a zero cell count - not this property); margin >= 0.05",
     "network coordinates dyadic (step 1/4, collinear mid-vertices 1/8, 1/16) in [-512, 512]: exactly vertical / horizontal "
@@ -81,13 +88,21 @@ def _abscissas(p, pts, tol):
 
 # ------------------------------------------------------------------------------------------------
 # building the tracklib objects from a case
+def _edge_z(case, e):
+    """heights of the vertices of an edge: case["nz"][node] for the end vertices (one height per node, shared by every
+    edge that ends there), e["midz"] for the interior vertices; absent = 0"""
+    nz = case.get("nz") or [0] * len(case["nodes"])
+    mz = e.get("midz") or [0] * len(e["mid"])
+    return [nz[e["src"]]] + list(mz) + [nz[e["tgt"]]]
+
+
 def _build_network(case):
     net = Network()
     for e in case["edges"]:
         pts = _edge_pts(case, e)
         tr = Track([], 1)
-        for (x, y) in pts:
-            tr.addObs(Obs(ENUCoords(x, y, 0), ObsTime()))
+        for (x, y), z in zip(pts, _edge_z(case, e)):
+            tr.addObs(Obs(ENUCoords(x, y, z), ObsTime()))
         computeAbsCurv(tr)
         ed = Edge(e["id"], tr)
         ed.orientation = e["ori"]
@@ -96,6 +111,18 @@ def _build_network(case):
         b = Node(case["node_ids"][e["tgt"]], tr.getLastObs().position)
         net.addEdge(ed, a, b)
     return net
+
+
+def _calls(case, ntracks):
+    """the matching calls of a case, in order: [{"t": track numbers, "radius", "noise", "how": "single"|"collection",
+    "fresh": build new Track objects for this call}].  Without case["calls"]: one collection call, or one single-track
+    call per track, with the case-wide radius and noise"""
+    if case.get("calls"):
+        return case["calls"]
+    r, n = case["radius"], case["noise"]
+    if case.get("coll") or ntracks > 1 and case.get("call") != "one-by-one":
+        return [{"t": list(range(ntracks)), "radius": r, "noise": n, "how": "collection"}]
+    return [{"t": [i], "radius": r, "noise": n, "how": "single"} for i in range(ntracks)]
 
 
 def _snapshot(tr):
@@ -125,7 +152,6 @@ def body(case):
         # a grid of that many cells (tiny square cells on a very elongated extent) takes minutes to build and to
         # scan; the property does not depend on it, and a slow case must never be mistaken for a failure
         return {"undef": True, "cls": ["undef-grid-too-large"]}
-    radius, noise = case["radius"], case["noise"]
     tracks_obs = [[tuple(p) for p in case["obs"]]] + [[tuple(p) for p in t] for t in case.get("more", [])]
     allobs = [p for t in tracks_obs for p in t]
     scale = max([1.0] + [abs(c) for g in geoms for p in g for c in p] + [abs(c) for p in allobs for c in p[:2]])
@@ -136,39 +162,76 @@ def body(case):
     res = None if case["res"] is None else [case["res"][0], case["res"][1]]
     net.spatial_index = SpatialIndex(net, resolution=res, margin=case["margin"], verbose=False)
     net.prepare(verbose=False)
-    tracks = [gen.make_track(t) for t in tracks_obs]
-    befores = [_snapshot(t) for t in tracks]
     vx = _vertical_xs(case)
     aligned_all = [p for p in allobs if p[0] in vx]
-    try:
-        if case.get("coll") or len(tracks) > 1 and case.get("call") != "one-by-one":
-            mapOnNetwork(TrackCollection(list(tracks)), net, gps_noise=noise, search_radius=radius)
-        else:
-            for t in tracks:                      # repeated single-track calls on the same prepared network
-                mapOnNetwork(t, net, gps_noise=noise, search_radius=radius)
-    except ZeroDivisionError as e:
-        if exc_key(e) == "exc:ZeroDivisionError:proj_segment" and aligned_all:
-            raise Violation(KF_VERTICAL, "ZeroDivisionError in proj_segment; observation(s) %s have the x of an "
-                            "exactly vertical edge segment (x in %s)" % (aligned_all[:4], sorted(vx)))
-        raise
-    except OverflowError as e:
-        # exp((dgeom - dtopo) / 10) in the transition model: dtopo >= -1, dgeom <= gap + 2 * radius
-        gap = max([0.0] + [math.hypot(t[k + 1][0] - t[k][0], t[k + 1][1] - t[k][1]) for t in tracks_obs for k in range(len(t) - 1)])
-        if exc_key(e) == "exc:OverflowError:tst_log" and gap + 2 * radius > 7000:
-            raise Violation(K_OVERFLOW, "OverflowError in the transition model; consecutive fixes %.0f apart" % gap)
-        raise
-
+    calls = _calls(case, len(tracks_obs))
+    tracks = [None] * len(tracks_obs)          # Track objects, created at first use, kept for later calls
     matched_edges, n_un, cls = set(), 0, set()
-    for ti, (track, obs, before) in enumerate(zip(tracks, tracks_obs, befores)):
+    seen = {}                                  # (x, y) -> largest radius of an earlier call that had a fix there
+    for ci, call in enumerate(calls):
+        radius, noise = call["radius"], call["noise"]
+        idx = list(call["t"])
+        for i in idx:
+            if tracks[i] is None or call.get("fresh"):
+                tracks[i] = gen.make_track(tracks_obs[i])
+        objs = [tracks[i] for i in idx]
+        befores = [_snapshot(t) for t in objs]
+        aligned = [p for i in idx for p in tracks_obs[i] if p[0] in vx]
         try:
-            me, un = _judge_track(case, track, obs, before, geoms, (x0, x1, y0, y1), radius, scale, tol_on, tol_r, vx, cls)
-        except Violation as v:
-            if len(tracks) == 1:
-                raise
-            raise Violation(v.key, "track %d of %d (%s): %s" % (ti, len(tracks), case.get("call"), v.msg))
-        matched_edges |= me
-        n_un += un
-    if len(tracks) > 1:
+            if call["how"] == "collection":
+                mapOnNetwork(TrackCollection(list(objs)), net, gps_noise=noise, search_radius=radius)
+            else:
+                for t in objs:
+                    mapOnNetwork(t, net, gps_noise=noise, search_radius=radius)
+        except ZeroDivisionError as e:
+            if exc_key(e) == "exc:ZeroDivisionError:proj_segment" and aligned:
+                raise Violation(KF_VERTICAL, "ZeroDivisionError in proj_segment; observation(s) %s have the x of an "
+                                "exactly vertical edge segment (x in %s)" % (aligned[:4], sorted(vx)))
+            raise
+        except OverflowError as e:
+            # exp((dgeom - dtopo) / 10) in the transition model: dtopo >= -1, dgeom <= gap + 2 * radius
+            gap = max([0.0] + [math.hypot(t[k + 1][0] - t[k][0], t[k + 1][1] - t[k][1])
+                               for t in (tracks_obs[i] for i in idx) for k in range(len(t) - 1)])
+            if exc_key(e) == "exc:OverflowError:tst_log" and gap + 2 * radius > 7000:
+                raise Violation(K_OVERFLOW, "OverflowError in the transition model; consecutive fixes %.0f apart" % gap)
+            raise
+        for i, track, before in zip(idx, objs, befores):
+            try:
+                me, un = _judge_track(case, track, tracks_obs[i], before, geoms, (x0, x1, y0, y1), radius, scale,
+                                      tol_on, tol_r, vx, cls)
+            except Violation as v:
+                if len(calls) == 1 and len(idx) == 1:
+                    raise
+                hist = ""
+                if ci:
+                    hist = "; earlier calls on this network: %s" % ", ".join(
+                        "tracks %s radius %r noise %r" % (c["t"], c["radius"], c["noise"]) for c in calls[:ci])
+                raise Violation(v.key, "call %d of %d (%s, tracks %s, radius %r, noise %r), track %d: %s%s" % (
+                    ci, len(calls), call["how"], idx, radius, noise, i, v.msg, hist))
+            matched_edges |= me
+            n_un += un
+        # measurement: a fix at a position that an earlier call already matched with another radius
+        for i in idx:
+            for p in tracks_obs[i]:
+                r0 = seen.get((p[0], p[1]))
+                if r0 is not None:
+                    cls.add("fix-position-seen-in-earlier-call:" + ("smaller-radius-now" if radius < r0 else
+                                                                    "same-radius" if radius == r0 else "larger-radius-now"))
+        for i in idx:
+            for p in tracks_obs[i]:
+                seen[(p[0], p[1])] = max(radius, seen.get((p[0], p[1]), radius))
+    if case.get("calls"):
+        cls.add("calls=%d" % len(calls))
+        if any(c.get("fresh") for c in calls[1:]):
+            cls.add("rematch-fresh-track-object")
+        done = set()
+        for c in calls:
+            if not c.get("fresh") and any(i in done for i in c["t"]):
+                cls.add("rematch-same-track-object")
+            done.update(c["t"])
+    zs = [z for e in edges for z in _edge_z(case, e)]
+    cls.add("net-z=zero" if not any(zs) else "net-z=constant" if len(set(zs)) == 1 else "net-z=varying")
+    if len(tracks) > 1 and not case.get("calls"):
         cls.add("tracks=%d-%s" % (len(tracks), "collection" if case.get("call") != "one-by-one" else "one-by-one"))
     if any(c != round(c * 16) / 16 for p in case["nodes"] for c in p):
         cls.add("net-decimal-coordinates")
@@ -280,6 +343,9 @@ def _lat(lo, hi, step=0.25):
     return gen.lattice(step, lo, hi)
 
 
+_S_Z = st.one_of(st.sampled_from([0.0, 2.5, -7.0, 30.0, 120.0, 1000.0]), gen.lattice(0.25, -64, 64))
+
+
 @st.composite
 def _network(draw):
     W = draw(st.sampled_from([8, 32, 32, 128, 128, 512]))
@@ -342,7 +408,21 @@ def _network(draw):
         if len(set(p[0] for p in allp)) == 1 or len(set(p[1] for p in allp)) == 1:
             a = nodes[edges[0]["src"]]
             edges[0]["mid"] = [[a[0] + W / 8, a[1] + W / 8]] + edges[0]["mid"]
-    return {"nodes": nodes, "node_ids": [3 * i + 1 for i in range(nn)], "edges": edges, "W": W}
+    out = {"nodes": nodes, "node_ids": [3 * i + 1 for i in range(nn)], "edges": edges, "W": W}
+    # heights of the network vertices: none (z = 0 everywhere), one constant, or varying along the edges
+    zmode = draw(st.sampled_from(["zero", "zero", "zero", "constant", "varying", "varying"]))
+    if zmode == "constant":
+        z0 = draw(_S_Z.filter(lambda z: z != 0))
+        out["nz"] = [z0] * nn
+        for e in edges:
+            e["midz"] = [z0] * len(e["mid"])
+    elif zmode == "varying":
+        out["nz"] = draw(st.lists(_S_Z, min_size=nn, max_size=nn))
+        if len(set(out["nz"])) == 1 and not any(e["mid"] for e in edges):
+            out["nz"][0] = out["nz"][0] + W / 4
+        for e in edges:
+            e["midz"] = draw(st.lists(_S_Z, min_size=len(e["mid"]), max_size=len(e["mid"])))
+    return out
 
 
 _FACT = [0.0, 0.0, 0.01, 0.5, 0.9, 0.999, 1.0, 1.001, 1.1, 1.5, 1.9, 1.999, 2.0, 2.5, 5.0, 20.0]
@@ -380,9 +460,14 @@ def _case(draw):
     # ---- observations -------------------------------------------------------------------------------
     vx = _vertical_xs(case)
 
+    pool = []                       # fixes of the tracks generated so far (exact positions can be shared)
+
     def one_track(nobs):
         obs = []
         for _ in range(nobs):
+            if pool and draw(st.integers(0, 3)) == 0:
+                obs.append(list(pool[draw(st.integers(0, len(pool) - 1))]))
+                continue
             e = edges[draw(st.integers(0, len(edges) - 1))]
             pts = _edge_pts(case, e)
             j = draw(st.integers(0, len(pts) - 2))
@@ -428,6 +513,7 @@ def _case(draw):
                 p[0] = p[0] + d
             z = draw(st.sampled_from([0.0, 0.0, 0.0, 0.0, 50.0, -300.0]))
             obs.append([float(p[0]), float(p[1])] + ([z] if z else []))
+        pool.extend(obs)
         return obs
 
     case["obs"] = one_track(draw(st.one_of(st.integers(1, 8), st.integers(4, 8))))
@@ -435,6 +521,22 @@ def _case(draw):
     if draw(st.integers(0, 3)) == 0:
         case["more"] = [one_track(draw(st.integers(1, 6))) for _ in range(draw(st.integers(1, 2)))]
         case["call"] = draw(st.sampled_from(["collection", "collection", "one-by-one"]))
+    # several matching calls on the same prepared network, each with its own radius / noise; tracks are matched again
+    # (the same Track object or a fresh copy) or share exact fix positions with tracks of earlier calls
+    if draw(st.integers(0, 3)) == 0:
+        nt = 1 + len(case.get("more", []))
+        s_rad = st.sampled_from([r, r, 0.2 * r, 0.5 * r, 2.0 * r] + RADII + [0.5, 5.5])
+        calls = []
+        for ci in range(draw(st.sampled_from([2, 2, 2, 3]))):
+            if nt == 1 or draw(st.integers(0, 2)) == 0:
+                t = [draw(st.integers(0, nt - 1))] if ci else [0]
+                how = draw(st.sampled_from(["single", "single", "collection"]))
+            else:
+                t = draw(st.lists(st.integers(0, nt - 1), min_size=1, max_size=nt, unique=True))
+                how = "collection" if len(t) > 1 else "single"
+            calls.append({"t": t, "radius": r if ci == 0 else draw(s_rad), "noise": draw(st.sampled_from(NOISES)),
+                          "how": how, "fresh": draw(st.integers(0, 2)) == 0})
+        case["calls"] = calls
     return case
 
 
@@ -467,6 +569,19 @@ def enum_sweep(tier):
                     case.update({"margin": 0.15, "radius": r, "noise": 10.0, "coll": False, "res": res,
                                  "obs": [[x + sh, y] for y in (-3.0, -1.0, 0.0, 0.5, 2.5, 4.0, 5.0, 6.0)]})
                     yield case
+            if r != 1.0:
+                continue
+            # the same columns on the network with heights, matched three times on the same prepared network: wide
+            # radius, narrow radius (same Track object), wide radius again (fresh Track object)
+            for i in range(nx + 1):
+                case = _suite_network()
+                case["nz"] = [0.0, 3.0, -2.0, 10.0, 4.0, 1.0]
+                case.update({"margin": 0.15, "radius": 5.5, "noise": 10.0, "coll": False, "res": res,
+                             "obs": [[-4.0 + i * step + 2.0 ** -10, y] for y in (-3.0, -1.0, 0.0, 0.5, 2.5, 4.0, 5.0, 6.0)],
+                             "calls": [{"t": [0], "radius": 5.5, "noise": 10.0, "how": "single", "fresh": False},
+                                       {"t": [0], "radius": 1.0, "noise": 50.0, "how": "single", "fresh": False},
+                                       {"t": [0], "radius": 5.5, "noise": 1.0, "how": "collection", "fresh": True}]})
+                yield case
 
 
 RULE = ("random: Hypothesis - networks of 2..12 edges on 3..11 nodes (grid / shared-coordinate / free lattice / 3-decimal positions, "
@@ -474,7 +589,11 @@ RULE = ("random: Hypothesis - networks of 2..12 edges on 3..11 nodes (grid / sha
         "index resolution None / square / rectangular built from a cell count 1..40, margin 0.05..0.5, radius in "
         "{0.5,1,5,5.5,25,100}, noise in {1,10,50}, 1..8 fixes = point of an edge + offset (on / perpendicular / along / axis "
         "offsets of 0..20 radii, outside the index, free, very far); exact x-alignment with a vertical segment kept in 1 of 4. "
-        "sweep: the 6-edge network of test_mapping.py, 8-fix vertical tracks at every x of a lattice over [-4,34]. "
+        "1..3 tracks per case (a quarter of the fixes of a later track repeat an exact earlier position); in about 1/3 of the cases 2..3 matching "
+        "calls on the same prepared network, each with its own radius (the first one, or x0.2 / x0.5 / x2, or any of the list) and noise, "
+        "on the same Track object or a fresh copy (labels calls=*, rematch-*, fix-position-seen-in-earlier-call:*, net-z=*). "
+        "sweep: the 6-edge network of test_mapping.py, 8-fix vertical tracks at every x of a lattice over [-4,34], "
+        "plus the same columns on that network with node heights matched three times (radius 5.5, 1.0, 5.5). "
         "Non-trivial: >= 2 fixes matched to different edges and >= 1 fix unmatched. Distinct = hash of the case.")
 
 SUBCHECKS = [
